@@ -25,6 +25,7 @@ import (
 	"io"
 	"runtime"
 	"strings"
+	"sync"
 
 	"seehuhn.de/go/membudget"
 	"seehuhn.de/go/pdf"
@@ -356,7 +357,18 @@ func surfaces(flt pdf.FilterFlate, tag string) ([]surface, error) {
 }
 
 // replayOne executes one behaviour on one surface.
-func replayOne(sf surface, b *behaviour, concurrent bool) (rec runRec) {
+func replayOne(sf surface, b *behaviour, concurrent bool) runRec {
+	return replayOneAs(sf, b, concurrent, 0)
+}
+
+// replayOneAs: with as > 0 the behaviour's stream 1 carries the data of stream `as`.
+func replayOneAs(sf surface, b *behaviour, concurrent bool, as int) (rec runRec) {
+	id := func(s int) int {
+		if as > 0 {
+			return as
+		}
+		return s
+	}
 	rec = runRec{Surface: sf.name, Mode: "sequential", Count: 1, beh: b, Events: []event{}, Final: []string{}}
 	if concurrent {
 		rec.Mode = "two-goroutines"
@@ -414,7 +426,7 @@ func replayOne(sf surface, b *behaviour, concurrent bool) (rec runRec) {
 			}()
 			switch o.Op {
 			case "open":
-				if err := ses.open(o.S); err != nil {
+				if err := ses.open(id(o.S)); err != nil {
 					ev.Res, ev.msg = "err", err.Error()
 				} else {
 					ev.Res = "ok"
@@ -425,14 +437,14 @@ func replayOne(sf surface, b *behaviour, concurrent bool) (rec runRec) {
 					ev.Res, ev.msg = "err", "not open"
 					return
 				}
-				ev.Res, ev.msg = ses.io(o.S, nio[o.S])
+				ev.Res, ev.msg = ses.io(id(o.S), nio[o.S])
 				nio[o.S]++
 			case "close":
 				if !opened[o.S] {
 					ev.Res, ev.msg = "err", "not open"
 					return
 				}
-				if err := ses.close(o.S); err != nil {
+				if err := ses.close(id(o.S)); err != nil {
 					ev.Res, ev.msg = "err", err.Error()
 				} else {
 					ev.Res = "ok"
@@ -450,7 +462,7 @@ func replayOne(sf surface, b *behaviour, concurrent bool) (rec runRec) {
 						f, msg = "panic", fmt.Sprint(r)
 					}
 				}()
-				f, msg = ses.final(s, nio[s])
+				f, msg = ses.final(id(s), nio[s])
 			}()
 		}
 		rec.Final = append(rec.Final, f)
@@ -519,7 +531,7 @@ func key(r *runRec) string {
 	return fmt.Sprintf("zlibpool/%s/%s/a-stream-is-closed-twice=%s", r.Surface, symptom(r), dc)
 }
 
-func report(ctx *core.Ctx, recs []runRec, bad []int) {
+func report(ctx *core.Ctx, recs []runRec, bad []int, alone map[string]*runRec) {
 	type agg struct {
 		n     int
 		first *runRec
@@ -541,12 +553,18 @@ func report(ctx *core.Ctx, recs []runRec, bad []int) {
 	notes := map[string]any{}
 	for _, k := range core.SortedKeys(byKey) {
 		a := byKey[k]
+		how := " (on pools left behind by earlier replays of the same group; not reproduced on empty pools)"
+		if x := alone[k]; x != nil {
+			a.first, how = x, " (reproduced on empty pools)"
+		} else if !doubleClose(a.first.beh) {
+			how = ""
+		}
 		var ops []string
 		for i, e := range a.first.Events {
 			ops = append(ops, fmt.Sprintf("%s(%d)@%s=%s", e.Op, e.S, a.first.beh.Ops[i].P, e.Res))
 		}
 		what := fmt.Sprintf("package-level zlib pools: %s, %s replay of the behaviour %s: streams end %v; %s [%d replays share the key]",
-			a.first.Surface, a.first.Mode, strings.Join(ops, " "), a.first.Final, a.first.note, a.n)
+			a.first.Surface, a.first.Mode, strings.Join(ops, " "), a.first.Final, a.first.note+how, a.n)
 		if doubleClose(a.first.beh) {
 			// needs a caller that closes a stream twice: outside C18's statement,
 			// reported as a note of the extension, no influence on the verdict
@@ -635,6 +653,31 @@ func Run(ctx *core.Ctx) error {
 		}
 	}
 	flushPools()
+	// free-running: two goroutines use their own streams at the same time, no
+	// order imposed, nothing closed twice (every iteration is one record)
+	free := &behaviour{N: 1, Shape: []shape{{nChunks, 1}}, Ops: []op{{1, "open", "g1"}, {1, "io", "g1"}, {1, "io", "g1"}, {1, "close", "g1"}}}
+	for _, sf := range sfs {
+		var wg sync.WaitGroup
+		out := make([][]runRec, 2)
+		for g := 0; g < 2; g++ {
+			wg.Add(1)
+			go func(g int) {
+				defer wg.Done()
+				for it := 0; it < ctx.Pick(150, 600); it++ {
+					r := replayOneAs(sf, free, false, g+1)
+					r.Mode = "free-running"
+					out[g] = append(out[g], r)
+				}
+			}(g)
+		}
+		wg.Wait()
+		for g := range out {
+			for _, r := range out[g] {
+				add(r)
+			}
+		}
+	}
+	flushPools()
 	ctx.Ev.Eval(total)
 	ctx.Ev.AddReplayed(total)
 	ctx.Ev.Set("zpool_behaviours", len(behs))
@@ -654,7 +697,63 @@ func Run(ctx *core.Ctx) error {
 	if err != nil {
 		return err
 	}
-	report(ctx, recs, bad)
+	// Examples for the report: a rejected replay may owe its failure to what
+	// earlier replays (with a double Close) left in the pools.  Re-run the
+	// first candidates of every key on empty pools and prefer one that fails
+	// the same way by itself.
+	all := map[string][]int{} // per key and shape of the behaviour
+	for _, b := range bad {
+		k := key(&recs[b]) + fmt.Sprintf("|%v", recs[b].beh.Shape)
+		all[k] = append(all[k], b)
+	}
+	byName := map[string]surface{}
+	for _, sf := range sfs {
+		byName[sf.name] = sf
+	}
+	looksBad := func(r *runRec) bool {
+		for _, e := range r.Events {
+			if e.Res != "ok" && e.Res != "own" && e.Res != "eof" {
+				return true
+			}
+		}
+		for _, f := range r.Final {
+			if f != "own" {
+				return true
+			}
+		}
+		return false
+	}
+	rng := ctx.Rand("zpool-examples")
+	var iso []runRec
+	found := map[string]bool{}
+	for _, ks := range core.SortedKeys(all) {
+		k := ks[:strings.Index(ks, "|")]
+		l := all[ks]
+		for try := 0; try < 6 && !found[k]; try++ {
+			r := &recs[l[rng.Intn(len(l))]]
+			if r.Mode == "free-running" {
+				break
+			}
+			flushPools()
+			x := replayOne(byName[r.Surface], r.beh, r.Mode == "two-goroutines")
+			flushPools()
+			if looksBad(&x) && key(&x) == k {
+				iso = append(iso, x)
+				found[k] = true
+			}
+		}
+	}
+	alone := map[string]*runRec{}
+	if len(iso) > 0 {
+		bad2, err := judge(ctx, iso) // the examples shown are judged like everything else
+		if err != nil {
+			return err
+		}
+		for _, j := range bad2 {
+			alone[key(&iso[j])] = &iso[j]
+		}
+	}
+	report(ctx, recs, bad, alone)
 	return nil
 }
 
@@ -695,7 +794,7 @@ func Replay(ctx *core.Ctx, raw json.RawMessage) (handled bool, err error) {
 		if err != nil {
 			return true, err
 		}
-		report(ctx, recs, bad)
+		report(ctx, recs, bad, nil)
 		return true, nil
 	}
 	return true, core.Infra("zpool: unknown surface %q", c.Surface)
